@@ -184,3 +184,29 @@ def obj_is(expr, name, attr=None):
         return False
     d = dotted(expr)
     return d == (name if attr is None else name + '.' + attr)
+
+
+def exactly_for_class(run, node, evp, klass, stop=None):
+    """True when the statement `node` is executed exactly when `isinstance(<evp>, <klass>)` holds, the conditions on its path being
+    read as a propositional formula over the two event-class tests; InternalEvent and MetaEvent are disjoint classes (checked)."""
+    from ..cfg import guards
+
+    def classify(op, l, r_, e):
+        if op == 'truthy' and l.replace(' ', '') == 'isinstance(%s,InternalEvent)' % evp:
+            return 'INT'
+        if op == 'truthy' and l.replace(' ', '') == 'isinstance(%s,MetaEvent)' % evp:
+            return 'META'
+        return None
+    prog = run.prog
+    disjoint = not prog.is_subclass('InternalEvent', 'MetaEvent') and not prog.is_subclass('MetaEvent', 'InternalEvent')
+    ba = q.BoolAbs(classify)
+    vs, sat = ba.table([(g[0], g[1], g[2]) for g in guards(node, stop)])
+    if not set(vs) <= {'INT', 'META'}:
+        return False
+    want = 'INT' if klass == 'InternalEvent' else 'META'
+    if want not in vs:
+        return False
+    bad = q.table_equals(vs, sat, lambda v: v.get(want, False))
+    if disjoint:
+        bad = [b for b in bad if not (b[0].get('INT') and b[0].get('META'))]
+    return not bad
